@@ -459,7 +459,7 @@ class IntegerSequence(SequenceBase):
         else:
             prev_point = point - self.i_step
         ret = self._get_point_in_bounds(prev_point)
-        if self.exclusions and ret in self.exclusions:
+        if self.exclusions and ret is not None and ret in self.exclusions:
             return self.get_prev_point(ret)
         return ret
 
@@ -476,7 +476,11 @@ class IntegerSequence(SequenceBase):
                 break
             prev_point = sequence_point
             sequence_point = self.get_next_point(sequence_point)
-        if self.exclusions and prev_point in self.exclusions:
+        if (
+            self.exclusions
+            and prev_point is not None
+            and prev_point in self.exclusions
+        ):
             return self.get_nearest_prev_point(prev_point)
         return prev_point
 
@@ -535,7 +539,11 @@ class IntegerSequence(SequenceBase):
 
     def get_stop_point(self):
         """Return the last point in this sequence, or None if unbounded."""
-        if self.exclusions and self.p_stop in self.exclusions:
+        if (
+            self.exclusions
+            and self.p_stop is not None
+            and self.p_stop in self.exclusions
+        ):
             return self.get_prev_point(self.p_stop)
         return self.p_stop
 
